@@ -340,3 +340,129 @@ Theorem C07_task_create_nanos6_from_source : forall sx cs who st p d, length p =
 Proof. exact TaskEvProofs.n6_pre_task_create. Qed.
 Print Assumptions C07_task_create_nanos6_from_source.
 (* ==== end of block (unit taskev) ==== *)
+
+(* ==== task / type / body creation from source (unit taskc) ==== *)
+(* The creation functions the units guards and taskev use as hand primitives are regenerated on every run into
+   Gen/TaskC_gen.v (translate/units/taskc.py): task_get_id, task_find, task_type_find, task_create, task_type_create of
+   src/emu/task.c and body_find, body_create of src/emu/body.c, over the prelude Emu/TaskCPre.v (ONE struct task_info;
+   uthash tables = insertion-ordered lists; calloc = a pending object that becomes entry number `length` when HASH_ADD
+   appends it; snprintf formats parsed by the translator; task_get_type_gid = the gid the environment supplies for a
+   label).  Emu/TaskCRelDefs.v: `Rep L P M c st` reads that task_info inside the emulator-core state: its types / tasks
+   are, in insertion order, the entries of `types st` / `tasks st` with key (L, P, M); the four flag bits are the four
+   booleans; a task's type pointer designates the type whose gid the model stores.  Proofs/TaskCProofs.v. *)
+From OV Require Emu.PvWPre Emu.TaskCPre Emu.TaskCRelDefs Gen.TaskC_gen Proofs.TaskCProofs.
+Module TCP := TaskCPre.
+Module TCR := TaskCRelDefs.
+Module TCG := TaskC_gen.
+Module TCT := TaskCProofs.
+
+Theorem C07_task_creation_from_source :
+  (* task_create: refuses an existing task id and an unknown type, otherwise appends the task with its flags and the
+     gid of its type - exactly EmuCoreDefs.task_create (the primitive of unit taskev) *)
+  (forall sx cx c st who ti mdl id ty fl,
+     TCP.c_calloc_ok cx = true -> nth_opt (s_threads sx) who = Some ti -> TCR.Rep (ti_loom ti) (ti_pid ti) mdl c st ->
+     match EmuCoreDefs.task_create sx st who mdl id ty (TCR.flagb fl 1) (TCR.flagb fl 2) (TCR.flagb fl 4) (TCR.flagb fl 8) with
+     | Ok st' => exists c', TCG.task_create tt ty id fl cx c = Ok (tt, c') /\ TCR.Rep (ti_loom ti) (ti_pid ti) mdl c' st'
+     | Err _ => TCG.task_create tt ty id fl cx c = Err PvWPre.E_FAIL
+     end) /\
+  (* task_type_create (labels shorter than MAX_PCF_LABEL; an empty label becomes "(unlabeled task type N)"): refuses an
+     existing type id and id 0, otherwise appends the type with the gid of its label - exactly EmuCoreDefs.type_create *)
+  (forall sx cx c st who ti mdl ty label,
+     TCP.c_calloc_ok cx = true -> 0 <= ty < 2 ^ 32 -> PvDefs.slen (TCT.type_label ty label) < 512 ->
+     nth_opt (s_threads sx) who = Some ti -> TCR.Rep (ti_loom ti) (ti_pid ti) mdl c st ->
+     match EmuCoreDefs.type_create sx st who mdl ty (TCP.c_gid cx (TCT.type_label ty label)) with
+     | Ok st' => exists c', TCG.task_type_create tt ty label cx c = Ok (tt, c') /\ TCR.Rep (ti_loom ti) (ti_pid ti) mdl c' st'
+     | Err _ => TCG.task_type_create tt ty label cx c = Err PvWPre.E_FAIL
+     end) /\
+  (* task_find / task_type_find = find_task / find_type (NULL exactly when the model finds nothing) *)
+  (forall cx c st L P mdl id, TCR.Rep L P mdl c st ->
+     (find_task st L P mdl id = None <-> PvWPre.find_idx (fun o => TCP.k_id o =? id) (TCP.s_tasks c) = None) /\
+     (find_type (types st) L P mdl id = None <-> PvWPre.find_idx (fun o => TCP.y_id o =? id) (TCP.s_types c) = None) /\
+     TCG.task_find (TCP.get_task_info_tasks cx c tt) id cx c = Ok (PvWPre.find_idx (fun o => TCP.k_id o =? id) (TCP.s_tasks c), c) /\
+     TCG.task_type_find (TCP.get_task_info_types cx c tt) id cx c = Ok (PvWPre.find_idx (fun o => TCP.y_id o =? id) (TCP.s_types c), c)) /\
+  (* body_create: refuses body id 0, an existing id and a NULL task, otherwise appends a Created body with the flags it is
+     given - the decision and the new table of GuardsPre.body_create / the creation inside task_op's execute case *)
+  (forall cx c t o tk task id fl, TCP.c_calloc_ok cx = true -> nth_error (TCP.s_tasks c) t = Some o ->
+     map TCP.cb_id (TCP.k_bodies o) = map b_id (tk_bodies tk) ->
+     (forall t', task = Some t' -> PvDefs.slen (TCT.body_name id (TCP.k_id (TCP.kobj c task))) < 256) ->
+     match TCT.model_body_create tk (match task with Some _ => true | None => false end) id with
+     | None => TCG.body_create (Some t) task id fl cx c = Ok (None, c)
+     | Some bs' =>
+       exists c' o' nb, TCG.body_create (Some t) task id fl cx c = Ok (Some TCP.BNew, c') /\
+         nth_error (TCP.s_tasks c') t = Some o' /\ TCP.k_bodies o' = TCP.k_bodies o ++ [nb] /\
+         map TCP.cb_id (TCP.k_bodies o') = map b_id bs' /\
+         TCP.cb_state nb = 1 /\ TCP.cb_flags nb = fl /\ TCP.cb_task nb = task /\ TCP.k_id o' = TCP.k_id o /\
+         TCP.k_flags o' = TCP.k_flags o /\ TCP.k_type o' = TCP.k_type o /\ TCP.s_types c' = TCP.s_types c
+     end).
+Proof.
+  exact (conj TCT.task_create_bridge (conj TCT.type_create_bridge (conj TCT.find_bridge TCT.body_create_bridge))).
+Qed.
+Print Assumptions C07_task_creation_from_source.
+
+(* the model's body-creation decision is GuardsPre.body_create's: stated against the primitive itself *)
+Theorem C07_body_create_decision_is_guards_primitive : forall sx st i tk id,
+  nth_opt (tasks st) i = Some tk ->
+  match TCT.model_body_create tk true id with
+  | None => body_create (Some i) (Some i) id (body_flags_of tk) sx st = Ok (None, st)
+  | Some bs' => body_create (Some i) (Some i) id (body_flags_of tk) sx st =
+                Ok (Some (i, length (tk_bodies tk)), store_body st i tk None {| b_id := id; b_state := BCreated; b_on := None |}) /\
+                bs' = tk_bodies tk ++ [{| b_id := id; b_state := BCreated; b_on := None |}]
+  end.
+Proof.
+  intros sx st i tk id N. unfold TCT.model_body_create, body_create. destruct (id =? 0); [reflexivity|].
+  rewrite N. destruct (find_body tk id); [reflexivity|]. rewrite Nat.eqb_refl, Z.eqb_refl. cbn [negb]. split; reflexivity.
+Qed.
+Print Assumptions C07_body_create_decision_is_guards_primitive.
+
+(* the explicit results (what the mutations break) *)
+Theorem C07_task_create_result_from_source : forall sx st ty id fl, TCP.c_calloc_ok sx = true ->
+  TCG.task_create tt ty id fl sx st =
+  match PvWPre.find_idx (fun o => TCP.k_id o =? id) (TCP.s_tasks st) with
+  | Some _ => Err PvWPre.E_FAIL
+  | None =>
+    match PvWPre.find_idx (fun o => TCP.y_id o =? ty) (TCP.s_types st) with
+    | None => Err PvWPre.E_FAIL
+    | Some y => Ok (tt, TCP.mk (TCP.s_types st) (TCP.s_ynew st) (TCP.s_tasks st ++ [TCT.new_task id fl y]) None (TCP.s_bnew st))
+    end
+  end.
+Proof. exact TCT.task_create_eq. Qed.
+Print Assumptions C07_task_create_result_from_source.
+
+Theorem C07_task_type_create_result_from_source : forall sx st ty label, TCP.c_calloc_ok sx = true -> 0 <= ty < 2 ^ 32 ->
+  TCG.task_type_create tt ty label sx st =
+  match PvWPre.find_idx (fun o => TCP.y_id o =? ty) (TCP.s_types st) with
+  | Some _ => Err PvWPre.E_FAIL
+  | None =>
+    if ty =? 0 then Err PvWPre.E_FAIL
+    else if 512 <=? PvDefs.slen (TCT.type_label ty label) then Err PvWPre.E_FAIL
+    else Ok (tt, TCP.mk (TCP.s_types st ++ [{| TCP.y_id := ty; TCP.y_gid := TCP.c_gid sx (TCT.type_label ty label);
+                                              TCP.y_label := TCT.type_label ty label |}])
+                        None (TCP.s_tasks st) (TCP.s_knew st) (TCP.s_bnew st))
+  end.
+Proof. exact TCT.task_type_create_eq. Qed.
+Print Assumptions C07_task_type_create_result_from_source.
+
+(* non-vacuity, by computation on the generated code: a type, a task of it, a duplicate task, an unknown type, type id 0,
+   a body, the same body again, body 0 *)
+Definition tc_env : TCP.cenv := {| TCP.c_calloc_ok := true; TCP.c_gid := fun l => 1000 + PvDefs.slen l |}.
+Definition tc_st0 : TCP.cst := TCP.mk [] None [] None None.
+
+Example C07_ex_creation_from_source :
+  match TCP.bind_ (TCG.task_type_create tt 5 [84; 121]) (TCP.bind_ (TCG.task_create tt 5 9 6)
+          (TCP.bind (TCG.body_create (Some 0%nat) (Some 0%nat) 1 3) (fun b1 =>
+           TCP.bind (TCG.body_create (Some 0%nat) (Some 0%nat) 1 3) (fun b2 =>
+           TCP.bind (TCG.body_create (Some 0%nat) (Some 0%nat) 0 3) (fun b3 => TCP.ret (b1, b2, b3)))))) tc_env tc_st0 with
+  | Ok ((b1, b2, b3), c) =>
+    b1 = Some TCP.BNew /\ b2 = None /\ b3 = None /\
+    TCP.s_types c = [{| TCP.y_id := 5; TCP.y_gid := 1002; TCP.y_label := [84; 121] |}] /\
+    map TCP.k_id (TCP.s_tasks c) = [9] /\ map TCP.k_flags (TCP.s_tasks c) = [6] /\ map TCP.k_type (TCP.s_tasks c) = [Some 0%nat] /\
+    map (fun k => map TCP.cb_id (TCP.k_bodies k)) (TCP.s_tasks c) = [[1]] /\
+    map (fun k => map TCP.cb_flags (TCP.k_bodies k)) (TCP.s_tasks c) = [[3]]
+  | Err _ => False
+  end /\
+  TCP.bind_ (TCG.task_type_create tt 5 [84]) (TCP.bind_ (TCG.task_create tt 5 9 0) (TCG.task_create tt 5 9 0)) tc_env tc_st0 = Err PvWPre.E_FAIL /\
+  TCP.bind_ (TCG.task_type_create tt 5 [84]) (TCG.task_create tt 6 9 0) tc_env tc_st0 = Err PvWPre.E_FAIL /\
+  TCG.task_type_create tt 0 [84] tc_env tc_st0 = Err PvWPre.E_FAIL /\
+  TCP.bind_ (TCG.task_type_create tt 5 [84]) (TCG.task_type_create tt 5 [85]) tc_env tc_st0 = Err PvWPre.E_FAIL.
+Proof. vm_compute. repeat split. Qed.
+(* ==== end of block (unit taskc) ==== *)
